@@ -697,6 +697,97 @@ def shrink(case):
             yield dict(case, chunks=ch[:i] + [ch[i][:j] + ch[i][j + 1:]] + ch[i + 1:], wf=None)
 
 
+# ------------------------------------------------------------------ dev-only: line coverage of the anchored code
+# VERIF_COVERAGE=1 ./check C06 --no-coq   -> evidence/C06_coverage.json + a summary on stderr
+
+COVER_TARGETS = {
+    'ombott/request_pkg/multipart.py': ['MatchTail', 'HeadersEaeter', 'BodyMarkuper', 'MultipartMarkup'],
+    'ombott/request_pkg/body_mixin.py': ['_body_read', '_iter_body', 'BodyMixin._body'],
+}
+_cov = dict(hit=set(), codes=None)
+
+
+def _cover_codes():
+    import importlib
+    import inspect
+    codes = {}
+    for rel, names in COVER_TARGETS.items():
+        mod = importlib.import_module(rel[:-3].replace('/', '.'))
+        for nm in names:
+            obj = mod
+            for part in nm.split('.'):
+                obj = getattr(obj, part) if not isinstance(obj, dict) else obj[part]
+            if inspect.isclass(obj):
+                members = [(k, v) for k, v in vars(obj).items()]
+            else:
+                members = [(nm, obj)]
+            for k, v in members:
+                f = getattr(v, 'fget', None) or getattr(v, '__wrapped__', None) or getattr(v, 'getter', None) or v
+                f = getattr(f, '__func__', f)
+                code = getattr(f, '__code__', None)
+                if code is None:
+                    # descriptors of ombott.common_helpers.cache_in keep the function in an attribute
+                    for a in ('func', 'fn', 'getter', '_getter'):
+                        g = getattr(v, a, None)
+                        if g is not None and hasattr(g, '__code__'):
+                            code = g.__code__
+                            break
+                if code is not None and code.co_filename.endswith(rel):
+                    codes[code] = '%s:%s' % (rel, code.co_qualname)
+    return codes
+
+
+def _cover_trace(frame, event, arg):
+    if frame.f_code in _cov['codes']:
+        def local(fr, ev, a):
+            if ev == 'line':
+                _cov['hit'].add((fr.f_code, fr.f_lineno))
+            return local
+        _cov['hit'].add((frame.f_code, frame.f_lineno))
+        return local
+    return None
+
+
+def _cover_report():
+    import dis
+    import json
+    import linecache
+    import os
+    import sys
+    total, reached, missing = 0, 0, []
+    for code, name in sorted(_cov['codes'].items(), key=lambda kv: (kv[1], kv[0].co_firstlineno)):
+        lines = sorted({ln for _, ln in dis.findlinestarts(code) if ln is not None and ln != code.co_firstlineno})
+        for ln in lines:
+            total += 1
+            if (code, ln) in _cov['hit']:
+                reached += 1
+            else:
+                missing.append([name, ln, linecache.getline(code.co_filename, ln).strip()])
+    root = os.path.normpath(os.path.join(os.path.dirname(os.path.abspath(__file__)), '..', '..'))
+    with open(os.path.join(root, 'evidence', 'C06_coverage.json'), 'w') as f:
+        json.dump(dict(total=total, reached=reached, missing=missing), f, indent=1)
+    print('C06 coverage of anchored functions: %d/%d lines reached' % (reached, total), file=sys.stderr)
+    for m in missing:
+        print('  not reached: %s:%d  %s' % tuple(m), file=sys.stderr)
+
+
+import os as _os
+if _os.environ.get('VERIF_COVERAGE') == '1':
+    import atexit as _atexit
+    import sys as _sys
+    _plain_run_impl = run_impl
+
+    def run_impl(case):          # noqa: F811
+        if _cov['codes'] is None:
+            _cov['codes'] = _cover_codes()
+            _atexit.register(_cover_report)
+        _sys.settrace(_cover_trace)
+        try:
+            return _plain_run_impl(case)
+        finally:
+            _sys.settrace(None)
+
+
 PREDICATES = {}
 
 MANIFEST = dict(
